@@ -41,6 +41,7 @@ type Outcome struct {
 	Reached  []string `json:"reached"`
 	Invalid  string   `json:"invalid,omitempty"` // script did not fit the run (engine defect)
 	Panicked string   `json:"panicked,omitempty"`
+	Exhausted bool    `json:"exhausted,omitempty"` // the script ended before the harness did
 }
 
 var (
@@ -52,6 +53,7 @@ var (
 
 type invalidScript struct{ msg string }
 type assumeFailed struct{}
+type scriptEnd struct{}
 
 // Load reads the replay script.
 func Load(path string) error {
@@ -73,6 +75,8 @@ func Run(f func()) (out Outcome) {
 				Out.Invalid = r.msg
 			case assumeFailed:
 				Out.Invalid = "assumption failed under the script"
+			case scriptEnd:
+				Out.Exhausted = true
 			default:
 				Out.Panicked = fmt.Sprint(r)
 			}
@@ -88,7 +92,7 @@ func next(name, kind string) scriptVal {
 		panic(invalidScript{"no script loaded"})
 	}
 	if pos >= len(script) {
-		panic(invalidScript{fmt.Sprintf("script exhausted at %s", name)})
+		panic(scriptEnd{}) // the script ends where the solver's model was taken; what was observed so far stands
 	}
 	v := script[pos]
 	pos++
@@ -167,7 +171,7 @@ func Panics(f func()) (p bool) {
 	defer func() {
 		if r := recover(); r != nil {
 			switch r.(type) {
-			case invalidScript, assumeFailed:
+			case invalidScript, assumeFailed, scriptEnd:
 				panic(r)
 			}
 			p = true
